@@ -1,5 +1,6 @@
 import BufrProofs.Codec
 import BufrProofs.CodecDynamic
+import BufrProofs.Bitmap
 /-
   C01 — Encode then decode returns every value and the subset structure unchanged.
 
@@ -114,6 +115,30 @@ theorem C01_dynamic_positions (T : Tables) (edition s4max : Nat) (s4len : Int) (
     (done todo ms out : List Node) (h : walk T edition s4max s4len fuel ddo done todo ms = some out) :
     ∃ tail, out = done.reverse ++ tail ∧ List.Forall₂ Reads tail ms :=
   walk_reads T edition s4max s4len fuel ddo done todo ms out h
+
+/-- **the decoder the correspondence runs (`decodeDataB`: `bufr_decode_message_subsets` with the data
+present bit-map head of `bufr_apply_tables2node`) is the decoder the theorems above are about
+(`decodeData`)**, for uncompressed data, whenever the expanded template holds no 2 36 YYY operator
+and no replicated class 33 element — i.e. on every template of this property's quantifier.
+Partial: the compressed loop is not covered (the streams tie it), and the closure of the quiet
+nodes under the decoder's on-the-fly expansion (`QClosed`, `hE`) is a hypothesis, not yet derived
+from "no Table D sequence contains such a descriptor". -/
+theorem C01_bitmap_head_inert_partial (T : Tables) (fuel : Nat) (t : Template) (enforce : Enforce) (nsub : Nat)
+    (s4max : Nat) (data : List Nat) (from0 to0 : Int) (hT : QClosed T)
+    (hE : ∀ bsq0, expandSequence T fuel (OP_EXPAND_DELAY_REPL ||| OP_ZDRC_SKIP) t.gabarit = .ok bsq0 →
+            ∀ x ∈ bsq0, quietNode x = true) :
+    decodeDataB T fuel t enforce nsub false s4max data from0 to0 =
+      decodeData T fuel t enforce nsub false s4max data from0 to0 :=
+  decodeDataB_quiet_uncompressed T fuel t enforce nsub s4max data from0 to0 hT hE
+
+/-- the subset loop itself, for any template: while no bit-map operator is met the loop with the
+bit-map head *is* the plain loop -/
+theorem C01_subset_loop_head_inert (T : Tables) (edition s4max : Nat) (hT : QClosed T)
+    (fuel : Nat) (ddo : DDO) (st : DecSt) (done todo : List Node)
+    (hd : quietDDO ddo) (hq : ∀ x ∈ todo, quietNode x = true) :
+    decodeSubsetLoopB T edition s4max fuel ddo {} st done todo =
+      liftB (decodeSubsetLoop T edition s4max fuel ddo st done todo) :=
+  decodeSubsetLoopB_quiet T edition s4max hT fuel ddo st done todo hd hq
 
 /-! ### Non-vacuity -/
 
